@@ -78,7 +78,7 @@ public:
   static constexpr fmtflags badbit = 1, failbit = 2, eofbit = 4;
   static constexpr int beg = 0;
 
-  explicit vf_ostream(unsigned char id) : id_(id) {}
+  constexpr explicit vf_ostream(unsigned char id) : id_(id) {}    // constexpr: std::cout/std::cerr models are constant-initialised (no global constructor needed)
   virtual ~vf_ostream() {}
 
   // state
